@@ -356,7 +356,7 @@ func (r *Runner) Step(op Op) bool {
 		return r.Viol == nil && r.Diverged == ""
 
 	case OpExpireSubs:
-		must, mustNot, _ := m.ExpireCandidates(now)
+		must, mustNot, may := m.ExpireCandidates(now)
 		a := actions.NewDeleteExpiredSubscriptions(actions.PruneCommonParams{MaxDelete: op.Batch})
 		if err := s.Client.DoCtxTx(ctx, nil, a.Execute); err != nil {
 			r.JobErrs = append(r.JobErrs, fmt.Sprintf("step %d expire: %v", r.step, err))
@@ -376,7 +376,7 @@ func (r *Runner) Step(op Op) bool {
 				m.C["subs-expired"]++
 			} else if err == nil {
 				for _, x := range must {
-					if x == ms && len(must) <= op.Batch {
+					if x == ms && len(must)+len(may) <= op.Batch {
 						r.report([]Viol{{Prop: "C14", Rule: "not-expired", Detail: fmt.Sprintf("step %d expiry sweep at +%v (batch %d) left subscription %s alive although its TTL ended at +%v", r.step, now.Sub(sut.Epoch), op.Batch, ms.Name, ms.Expires.Sub(sut.Epoch))}})
 					}
 				}
@@ -529,8 +529,8 @@ func (r *Runner) Drain(maxRounds int) bool {
 			var parts []string
 			for _, d := range stuck {
 				b, by := r.M.blocked(d, now)
-				if b == 0 {
-					continue // uncertain: not a verdict
+				if b != -1 {
+					continue // blocked (possibly behind an uncertain delivery) or uncertain: not a verdict on this one
 				}
 				parts = append(parts, fmt.Sprintf("#%d on %s (n=%d, blocked=%d by %v)", d.Msg.Idx, d.Sub.Name, d.N, b, by != nil))
 			}
